@@ -1492,7 +1492,11 @@ class IRGenerator:
                             *loc)
                 else:
                     # Referring to a field that's a member of this type
-                    assert type_context is not None
+                    if type_context is None:
+                        raise InvalidSpec(
+                            'Bad doc reference to field %s outside of a '
+                            'struct or union.' % quote(val),
+                            *loc)
                     if not any(field.name == val
                                for field in type_context.all_fields):
                         raise InvalidSpec(
@@ -1511,7 +1515,7 @@ class IRGenerator:
                 if '.' in val:
                     # Handle reference to route in imported namespace.
                     namespace_name, val = val.split('.', 1)
-                    if namespace_name not in env:
+                    if not isinstance(env.get(namespace_name), Environment):
                         raise InvalidSpec(
                             "Unknown doc reference to namespace '%s'." %
                             namespace_name, *loc)
@@ -1540,7 +1544,7 @@ class IRGenerator:
                 if '.' in val:
                     # Handle reference to type in imported namespace.
                     namespace_name, val = val.split('.', 1)
-                    if namespace_name not in env:
+                    if not isinstance(env.get(namespace_name), Environment):
                         raise InvalidSpec(
                             "Unknown doc reference to namespace '%s'." %
                             namespace_name, *loc)
